@@ -208,6 +208,37 @@ def run_tree(asm, acc, seed, idx, ncli):
                     labs[n] = int(v, 16)
                 if got != ref.out or labs != ref.labels:
                     core.add_viol(acc, '%s: output differs from the flattened program' % desc, case, {})
+ 
+        # history: one included file changes on disk, the tree is assembled again by the same interpreter
+        victims = [p for p in t.files if p != t.main]
+        if victims:
+            os.chdir(old)
+            v = rng.choice(victims)
+            marker = 'db 0x%02x' % rng.randrange(1, 255)
+            t.files[v] = t.files[v] + [marker, 'align 2']
+            with open(v, 'a') as f:
+                f.write(marker + '\nalign 2\n')
+            # flatten again by the property's rule
+            def flat(path):
+                out = []
+                for ln in t.files[path]:
+                    if ln.startswith('include '):
+                        name = ln.split('#')[0].split()[1].strip('"\'')
+                        here = os.path.dirname(path)
+                        cand = [os.path.normpath(os.path.join(here, name))] + [os.path.normpath(os.path.join(d, name)) for d in t.incdirs]
+                        tgt = next(c for c in cand if c in t.files)
+                        out += flat(tgt)
+                    else:
+                        out.append(ln)
+                return out
+            flat2 = flat(t.main)
+            ref2 = monitors.observe(asm, '\n'.join(flat2) + '\n', False, tap=False)
+            o2 = monitors.observe(asm, t.main, False, include_dirs=list(t.incdirs), tap=False)
+            acc['n'] += 1
+            acc['ctr']['rewrite_runs'] += 1
+            if ref2.ok and (not o2.ok or o2.out != ref2.out or o2.labels != ref2.labels):
+                core.add_viol(acc, 'include tree assembled again after %s was extended on disk: %s; the flattened program gives %d bytes' % (
+                    os.path.relpath(v, root), ('%d bytes' % len(o2.out)) if o2.ok else o2.exc['msg'], len(ref2.out)), {'seed': seed, 'idx': idx}, {})
         if idx % 41 == 0:
             core.add_sample(acc, {'tree': {os.path.relpath(p, root): l[:6] for p, l in list(t.files.items())[:5]}, 'flattened_lines': len(t.flat),
                                   'include_dirs': [os.path.relpath(d, root) for d in t.incdirs]})
